@@ -52,6 +52,11 @@ def run(chk, args):
                 d = probe.make_def("vrb%d" % tid, types, haveFq=(k % 2 == 0), hollow=(k % 4 == 0), nmodes=2,
                                    valid=rng.choice([(0,), (2, 0, 1)]))
                 scen.append({"tid": tid, "probe": d, "shape": p, "seed": rng.randrange(1 << 30)})
+                if k % 12 == 0:
+                    # the base's validity region is a difference of two parameters bounded from above and the
+                    # translation of the subtracted one is a sum written without enclosing parentheses
+                    d["valid"] = [3, 0, 1, 0.5]
+                    scen[-1]["directed"] = "valid-region"
             else:
                 scen.append({"tid": tid, "base": BASES[k % len(BASES)], "shape": p, "seed": rng.randrange(1 << 30)})
             # every fourth derivation: an intermediate variable in the translation and a new parameter that keeps the
